@@ -72,10 +72,40 @@ func TestGowpReplayC06(t *testing.T) {
 		}
 	}
 }
+
+// calls of function variables: a func() local three or more frames above the call, and a
+// file-level function variable that is reassigned between two executions of the same call site
+func TestGowpReplayC06Calls(t *testing.T) {
+	{
+		ir := New()
+		for _, p := range []struct{ src, call, want string }{
+			{"func deep3() int { n := 0; g := func() { n++ }; { a := 1; { b := 2; { c := 3; _ = a + b + c; g() } } }; return n }", "deep3()", "1"},
+			{"func deep4() int { n := 0; g := func() { n += 2 }; { a := 1; { b := 2; { c := 3; { d := 4; _ = a + b + c + d; g() } } } }; return n }", "deep4()", "2"},
+			{"func deep2() int { n := 0; g := func() { n += 5 }; { a := 1; { b := 2; _ = a + b; g() } }; return n }", "deep2()", "5"},
+		} {
+			if _, err := gowpEval06(ir, p.src); err != nil {
+				t.Fatalf("GOWP-REPLAY-FAIL setup %s: %v", p.src, err)
+			}
+			if res, err := gowpEval06(ir, p.call); err != nil || fmt.Sprint(res) != p.want {
+				t.Fatalf("GOWP-REPLAY-FAIL call of a func() variable declared several frames above the call: %s = %v (panic %v), want %s; program: %s", p.call, res, err, p.want, p.src)
+			}
+		}
+		gowpEval06(ir, "var gf func() = nil; var gn int")
+		gowpEval06(ir, "gf = func() { gn += 1 }")
+		gowpEval06(ir, "func callgf() { gf() }")
+		gowpEval06(ir, "callgf()")
+		gowpEval06(ir, "gf = func() { gn += 100 }")
+		gowpEval06(ir, "callgf()")
+		if res, err := gowpEval06(ir, "gn"); err != nil || fmt.Sprint(res) != "101" {
+			t.Fatalf("GOWP-REPLAY-FAIL history: var gf func(); gf = func() { gn += 1 }; func callgf() { gf() }; callgf(); gf = func() { gn += 100 }; callgf(); gn = %v (panic %v), want 101: the call site keeps calling the function gf held at its first execution", res, err)
+		}
+	}
+}
 `
 
 func init() {
-	r := &replayer{pkg: "fast", test: "TestGowpReplayC06", kind: "search", source: func(map[string]string, string) string { return replayC06 }}
+	r := &replayer{pkg: "fast", test: "TestGowpReplayC06$", kind: "search", source: func(map[string]string, string) string { return replayC06 }}
+	replayers["fast.(*Comp).call0ret0"] = &replayer{pkg: "fast", test: "TestGowpReplayC06Calls", kind: "search", source: func(map[string]string, string) string { return replayC06 }}
 	for _, f := range []string{"fast.(*Var).Address", "fast.(*Env).freeEnv", "fast.(*Env).MarkUsedByClosure", "fast.newEnv", "fast.NewEnv", "fast.(*Env).FreeEnv", "fast.(*Env).freeEnv4Func"} {
 		replayers[f] = r
 	}
